@@ -1,0 +1,19 @@
+//go:build verif
+
+package client
+
+import "sort"
+
+// verif hook H5: the secondaries of a shards document are collected by ranging
+// over a map, i.e. in random order, which decides the round-robin order of
+// reads. Under simulation the order has to be a function of the run's seed, so
+// the simulator may install a permutation; by default the list is sorted.
+var SimOrderHook func(secondaries []string) []string
+
+func simOrder(secondaries []string) []string {
+	sort.Strings(secondaries)
+	if SimOrderHook != nil {
+		return SimOrderHook(secondaries)
+	}
+	return secondaries
+}
